@@ -227,8 +227,19 @@ func (e *Engine) zeroLeaf(s smt.Sort) smt.Term {
 	case smt.Int:
 		return smt.IntLit(0)
 	}
-	if _, el, ok := smt.ArrayParts(s); ok {
-		return smt.Term{S: fmt.Sprintf("((as const %s) %s)", s, e.zeroLeaf(el).S), Sort: s}
+	if ix, el, ok := smt.ArrayParts(s); ok {
+		z := e.zeroLeaf(el)
+		if z.Const {
+			return smt.Term{S: fmt.Sprintf("((as const %s) %s)", s, z.S), Sort: s}
+		}
+		// cvc5 accepts only literal values in constant arrays: use a declared array with a point-wise axiom
+		name := "zeroarr<" + string(s) + ">"
+		a := e.ctx.Const(name, s)
+		if !e.zeroArrDone[name] {
+			e.zeroArrDone[name] = true
+			e.ctx.RawDecl(fmt.Sprintf("(assert (forall ((k!z %s)) (! (= (select %s k!z) %s) :pattern ((select %s k!z)))))", ix, a.S, z.S, a.S))
+		}
+		return a
 	}
 	// uninterpreted sorts (type parameters, floats): a distinguished zero constant
 	return e.ctx.Const("zero_"+string(s), s)
